@@ -421,8 +421,11 @@ func (in *interp) strEq(x, y value) *Term {
 type atomSeg struct {
 	kind int // 0 non-digit literal, 1 digit literal, 2 atom
 	lit  []byte
+	sym  []value // for kind 0: the elements (concrete or symbolic non-digit bytes)
 	atom *Atom
 }
+
+type atomAmbiguity struct{}
 
 func (in *interp) atomSegments(e []value) []atomSeg {
 	var segs []atomSeg
@@ -435,12 +438,28 @@ func (in *interp) atomSegments(e []value) []atomSeg {
 			}
 			if n := len(segs); n > 0 && segs[n-1].kind == k {
 				segs[n-1].lit = append(segs[n-1].lit, v)
+				segs[n-1].sym = append(segs[n-1].sym, v)
 			} else {
-				segs = append(segs, atomSeg{kind: k, lit: []byte{v}})
+				segs = append(segs, atomSeg{kind: k, lit: []byte{v}, sym: []value{v}})
+			}
+		case *Sym:
+			// a symbolic byte next to numerals must not be a digit
+			isDigit := in.tp.And(in.tp.bvCmp(OpBVUle, in.tp.BV('0', 8), v.T), in.tp.bvCmp(OpBVUle, v.T, in.tp.BV('9', 8)))
+			if in.decide(isDigit, "symbolic byte is a digit") {
+				panic(unsupported{"comparison of a string mixing numeral atoms and symbolic digit bytes"})
+			}
+			if n := len(segs); n > 0 && segs[n-1].kind == 0 {
+				segs[n-1].lit = append(segs[n-1].lit, '?')
+				segs[n-1].sym = append(segs[n-1].sym, v)
+			} else {
+				segs = append(segs, atomSeg{kind: 0, lit: []byte{'?'}, sym: []value{v}})
 			}
 		case *Atom:
-			if kindSigned(v.K) {
-				panic(unsupported{"comparison of a string containing a signed numeral atom"})
+			if kindSigned(v.K) && !nonNegative(v.T) {
+				neg := in.tp.bvCmp(OpBVSlt, v.T, in.tp.BV(0, v.T.Sort.W))
+				if in.decide(neg, "numeral atom negative") {
+					panic(unsupported{"comparison of a string containing a negative numeral atom"})
+				}
 			}
 			if v.Verb != "%d" && v.Verb != "%v" {
 				panic(unsupported{"comparison of a string containing a numeral atom with verb " + v.Verb})
@@ -452,15 +471,60 @@ func (in *interp) atomSegments(e []value) []atomSeg {
 	}
 	for i := 1; i < len(segs); i++ {
 		if segs[i].kind != 0 && segs[i-1].kind != 0 {
-			panic(unsupported{"ambiguous numeral boundary: a numeral atom is adjacent to digits or to another atom (missing separator?)"})
+			// a numeral atom adjacent to digits or to another atom (missing separator?)
+			panic(atomAmbiguity{})
 		}
 	}
 	return segs
 }
 
-func (in *interp) atomStrEq(ex, ey []value) *Term {
+// concretizeAtoms replaces every numeral atom by the digits of a concrete value (forking over
+// the feasible values; the harness must keep their range small).
+func (in *interp) concretizeAtoms(e []value) []value {
+	var out []value
+	for _, x := range e {
+		at, ok := x.(*Atom)
+		if !ok {
+			out = append(out, x)
+			continue
+		}
+		v := in.concretize(&Sym{K: at.K, T: at.T}, "numeral atom with ambiguous boundary")
+		var txt string
+		if kindSigned(at.K) {
+			txt = fmt.Sprintf("%d", asInt64(v))
+		} else {
+			txt = fmt.Sprintf("%d", bitsOfConcrete(v))
+		}
+		for i := 0; i < len(txt); i++ {
+			out = append(out, txt[i])
+		}
+	}
+	return out
+}
+
+func (in *interp) atomStrEq(ex, ey []value) (res *Term) {
 	tp := in.tp
-	sx, sy := in.atomSegments(ex), in.atomSegments(ey)
+	ambiguous := false
+	var sx, sy []atomSeg
+	func() {
+		defer func() {
+			if r := recover(); r != nil {
+				if _, ok := r.(atomAmbiguity); ok {
+					ambiguous = true
+					return
+				}
+				panic(r)
+			}
+		}()
+		sx, sy = in.atomSegments(ex), in.atomSegments(ey)
+	}()
+	if ambiguous {
+		if !in.atomConcretize {
+			panic(unsupported{"ambiguous numeral boundary: a numeral atom is adjacent to digits or to another atom (missing separator?)"})
+		}
+		cx, cy := in.concretizeAtoms(ex), in.concretizeAtoms(ey)
+		return in.strEq(mkStr(cx), mkStr(cy))
+	}
 	if len(sx) != len(sy) {
 		return tp.Bool(false)
 	}
@@ -469,8 +533,11 @@ func (in *interp) atomStrEq(ex, ey []value) *Term {
 		a, b := sx[i], sy[i]
 		switch {
 		case a.kind == 0 || b.kind == 0:
-			if a.kind != b.kind || string(a.lit) != string(b.lit) {
+			if a.kind != b.kind || len(a.sym) != len(b.sym) {
 				return tp.Bool(false)
+			}
+			for j := range a.sym {
+				r = tp.And(r, tp.Eq(in.termOf(a.sym[j]), in.termOf(b.sym[j])))
 			}
 		case a.kind == 1 && b.kind == 1:
 			if string(a.lit) != string(b.lit) {
